@@ -371,6 +371,131 @@ func checksOf(r *Repo, fn *ast.FuncDecl, checkers map[string]bool) []check {
 	return out
 }
 
+// enclosingConds lists, outermost first, the conditions under which the statement at pos executes:
+// the conditions of the enclosing `if`s (negated for an else branch) and a marker for every
+// enclosing loop / switch / select / function literal.
+func enclosingConds(r *Repo, fn *ast.FuncDecl, pos token.Pos) []string {
+	var found []string
+	var walk func(n ast.Node, conds []string) bool
+	walk = func(n ast.Node, conds []string) bool {
+		if n == nil || pos < n.Pos() || pos >= n.End() {
+			return false
+		}
+		if n.Pos() == pos {
+			if _, ok := n.(*ast.IfStmt); ok {
+				found = append([]string{}, conds...)
+				return true
+			}
+		}
+		switch s := n.(type) {
+		case *ast.IfStmt:
+			c := r.Text(s.Cond)
+			if walk(s.Body, append(conds[:len(conds):len(conds)], c)) {
+				return true
+			}
+			if s.Else != nil && walk(s.Else, append(conds[:len(conds):len(conds)], "!("+c+")")) {
+				return true
+			}
+			return false
+		case *ast.ForStmt:
+			return walk(s.Body, append(conds[:len(conds):len(conds)], "for"))
+		case *ast.RangeStmt:
+			return walk(s.Body, append(conds[:len(conds):len(conds)], "range"))
+		case *ast.SwitchStmt:
+			return walk(s.Body, append(conds[:len(conds):len(conds)], "switch"))
+		case *ast.TypeSwitchStmt:
+			return walk(s.Body, append(conds[:len(conds):len(conds)], "switch"))
+		case *ast.SelectStmt:
+			return walk(s.Body, append(conds[:len(conds):len(conds)], "select"))
+		case *ast.FuncLit:
+			return walk(s.Body, append(conds[:len(conds):len(conds)], "func"))
+		}
+		done := false
+		ast.Inspect(n, func(m ast.Node) bool {
+			if done || m == nil || m == n {
+				return !done
+			}
+			switch m.(type) {
+			case *ast.IfStmt, *ast.ForStmt, *ast.RangeStmt, *ast.SwitchStmt, *ast.TypeSwitchStmt, *ast.SelectStmt, *ast.FuncLit:
+				if walk(m, conds) {
+					done = true
+				}
+				return false
+			}
+			return true
+		})
+		return done
+	}
+	walk(fn.Body, nil)
+	return found
+}
+
+// comparisonsOf: positions of the `if a != b` / `a == b` statements of fn that compare a value derived
+// from a header CRC field with one derived from a crc computation (whether or not they cover a read)
+func comparisonsOf(r *Repo, fn *ast.FuncDecl) []*ast.IfStmt {
+	if !mentions(r, fn.Body, ".CRC") {
+		return nil
+	}
+	tn := taintsOf(r, assignments(fn))
+	var out []*ast.IfStmt
+	ast.Inspect(fn.Body, func(n ast.Node) bool {
+		s, ok := n.(*ast.IfStmt)
+		if !ok {
+			return true
+		}
+		if b, ok := s.Cond.(*ast.BinaryExpr); ok && (b.Op == token.NEQ || b.Op == token.EQL) {
+			hx, cx := tn.of(r, b.X)
+			hy, cy := tn.of(r, b.Y)
+			if (hx && cy) || (hy && cx) {
+				out = append(out, s)
+			}
+		}
+		return true
+	})
+	return out
+}
+
+func bareCallee(c *ast.CallExpr) string {
+	switch f := c.Fun.(type) {
+	case *ast.Ident:
+		return f.Name
+	case *ast.SelectorExpr:
+		return f.Sel.Name
+	}
+	return ""
+}
+
+// passedTo: callees of fn that receive the variable `v` itself as an argument
+func passedTo(fn *ast.FuncDecl, v string) []string {
+	seen := map[string]bool{}
+	ast.Inspect(fn.Body, func(n ast.Node) bool {
+		c, ok := n.(*ast.CallExpr)
+		if !ok {
+			return true
+		}
+		for _, a := range c.Args {
+			if id, ok := a.(*ast.Ident); ok && id.Name == v {
+				seen[bareCallee(c)] = true
+			}
+		}
+		return true
+	})
+	var out []string
+	for k := range seen {
+		out = append(out, k)
+	}
+	sort.Strings(out)
+	return out
+}
+
+func strList(xs []string) string {
+	q := make([]string, len(xs))
+	for i, x := range xs {
+		q[i] = Str(x)
+	}
+	return "[" + strings.Join(q, ", ") + "]"
+}
+
 func pageLoaders(r *Repo, s *Section) error {
 	file, err := r.File("file.go")
 	if err != nil {
@@ -519,6 +644,109 @@ func pageLoaders(r *Repo, s *Section) error {
 	sort.Strings(others)
 	s.Comment("every other read site of file.go: (function, destination)")
 	s.Def("otherReadSites", "List (String × String)", List(others))
+
+	// ---- under which conditions is the checksum compared (finding F8 is `header.CRC != 0`; anything
+	// else in here — a skip counter, an option — makes verification depend on reader state)
+	var guardRows []string
+	for _, name := range order {
+		for _, cmp := range comparisonsOf(r, funcs[name]) {
+			conds := enclosingConds(r, funcs[name], cmp.Pos())
+			guardRows = append(guardRows, Tuple(Str(name), strList(conds)))
+			s.Comment("file.go:%d %s: `if %s` executes under %v", r.Line(cmp), name, r.Text(cmp.Cond), conds)
+		}
+	}
+	s.Comment("(function, conditions enclosing its checksum comparison, outermost first)")
+	s.Def("crcComparisonGuards", "List (String × List String)", List(guardRows))
+
+	// ---- the buffer that is read, checksummed and returned by a loader; where its callers pass it
+	var flowRows, useRows, entryRows []string
+	entries := map[string]bool{}
+	for _, n := range names {
+		fn := funcs[n]
+		asg := assignments(fn)
+		readInto, summed, returned := "", "", ""
+		for _, st := range sites {
+			if st.fn == n && st.isPage {
+				if id := rootIdent(st.dest); id != nil {
+					readInto = id.Name
+				}
+			}
+		}
+		ast.Inspect(fn.Body, func(m ast.Node) bool {
+			if c, ok := m.(*ast.CallExpr); ok && isCrcCall(c) && len(c.Args) > 0 {
+				if id := rootIdent(c.Args[len(c.Args)-1]); id != nil {
+					summed = id.Name
+				}
+			}
+			if ret, ok := m.(*ast.ReturnStmt); ok && len(ret.Results) > 1 {
+				if id, ok := ret.Results[len(ret.Results)-1].(*ast.Ident); ok && id.Name == "nil" {
+					returned = r.Text(ret.Results[0])
+				}
+			}
+			return true
+		})
+		flowRows = append(flowRows, Tuple(Str(n), Str(readInto), Str(summed), Str(returned), fmt.Sprint(len(asg[readInto]))))
+	}
+	for _, name := range order {
+		fn := funcs[name]
+		asg := assignments(fn)
+		ast.Inspect(fn.Body, func(m ast.Node) bool {
+			a, ok := m.(*ast.AssignStmt)
+			if !ok || len(a.Rhs) != 1 {
+				return true
+			}
+			c, ok := a.Rhs[0].(*ast.CallExpr)
+			if !ok {
+				return true
+			}
+			loader, ok := bare[bareCallee(c)]
+			if !ok {
+				return true
+			}
+			res, ok := a.Lhs[0].(*ast.Ident)
+			if !ok {
+				useRows = append(useRows, Tuple(Str(name), Str(loader), Str(r.Text(a.Lhs[0])), "[]", "[]"))
+				return true
+			}
+			var others []string
+			for _, rhs := range asg[res.Name] {
+				if rhs != a.Rhs[0] {
+					others = append(others, r.Text(rhs))
+				}
+			}
+			sort.Strings(others)
+			to := passedTo(fn, res.Name)
+			for _, t := range to {
+				entries[t] = true
+			}
+			useRows = append(useRows, Tuple(Str(name), Str(loader), Str(res.Name), strList(to), strList(others)))
+			return true
+		})
+	}
+	sort.Strings(useRows)
+	var entryNames []string
+	for _, name := range order {
+		if entries[funcs[name].Name.Name] {
+			entryNames = append(entryNames, name)
+		}
+	}
+	sort.Strings(entryNames)
+	for _, name := range entryNames {
+		fn := funcs[name]
+		param := ""
+		for _, f := range fn.Type.Params.List {
+			if strings.Contains(r.Text(f.Type), "buffer[byte]") && len(f.Names) > 0 {
+				param = f.Names[0].Name
+			}
+		}
+		entryRows = append(entryRows, Tuple(Str(name), Str(param), strList(passedTo(fn, param)), fmt.Sprint(len(assignments(fn)[param]))))
+	}
+	s.Comment("(loader, variable read into, variable checksummed, value returned on success, assignments to that variable)")
+	s.Def("loaderBufferFlow", "List (String × String × String × String × Nat)", List(flowRows))
+	s.Comment("(caller, loader, variable holding the loader's result, callees that receive that variable,\nother values assigned to it in the caller)")
+	s.Def("loaderResultFlow", "List (String × String × String × List String × List String)", List(useRows))
+	s.Comment("the decode entry points that receive it: (function, its *buffer[byte] parameter, callees that receive the\nparameter, assignments to the parameter)")
+	s.Def("decodeEntryFlow", "List (String × String × List String × Nat)", List(entryRows))
 
 	// ---- writer side
 	wfile, err := r.File("writer.go")
